@@ -46,6 +46,9 @@ def main(argv) -> int:
         print(__doc__)
         return 2
     target = argv[0]
+    if target == "selftest":
+        from selftest import runner
+        return runner.main(argv[1:])
     tier = os.environ.get("VERIF_TIER", "quick")
     replay = None
     i = 1
